@@ -312,8 +312,15 @@ CallUser(d, f, args, ctx) ==
     [] f.kind = "ctxpos" -> NumV(NInt(ctx.pos))                                        \* returns ContextPosition()+1
     [] f.kind = "nargs" -> NumV(NInt(Len(args)))                                       \* returns the number of arguments
 
+\* [op |-> "numtext", s |-> chars]: a Number literal given by its spelling (any length).  Its value is the double nearest to
+\* the numeral, which the specification determines only for short spellings; but whatever it is, it is the value the SAME
+\* characters convert to as a string (section 4.4: number() of a string reads it as a Number) - SameNumeral below.
+SameNumeral(x, y) == /\ x.op = "call" /\ x.pre = "" /\ x.lo = <<"n","u","m","b","e","r">> /\ Len(x.args) = 1 /\ x.args[1].op = "lit"
+                     /\ y.op = "numtext" /\ y.s = x.args[1].s /\ IsUNumeral(y.s)
 Eval(d, env, e, ctx) ==
   CASE e.op = "num" -> NumV(e.v)
+    [] e.op = "numtext" -> NumOrErr(StrToNum(e.s))
+    [] e.op \in {"eq", "ne"} /\ (SameNumeral(e.l, e.r) \/ SameNumeral(e.r, e.l)) -> BoolV(e.op = "eq")
     [] e.op = "lit" -> StrV(e.s)
     [] e.op = "var" ->
          IF ~Bound(env, e.pre) THEN Err("unbound-prefix")
@@ -365,7 +372,7 @@ StepsReverse(steps) == \E i \in 1..Len(steps) :
    IF "fn" \in DOMAIN steps[i] THEN UsesReverseAxis(steps[i].fn)
    ELSE steps[i].ax \in ReverseAxes \/ \E j \in 1..Len(steps[i].preds) : UsesReverseAxis(steps[i].preds[j])
 UsesReverseAxis(e) ==
-  CASE e.op \in {"num", "lit", "var"} -> FALSE
+  CASE e.op \in {"num", "lit", "var", "numtext"} -> FALSE
     [] e.op = "call" -> \E i \in 1..Len(e.args) : UsesReverseAxis(e.args[i])
     [] e.op = "path" -> StepsReverse(e.steps)
     [] e.op = "filter" -> UsesReverseAxis(e.prim) \/ StepsReverse(e.steps) \/ \E j \in 1..Len(e.preds) : UsesReverseAxis(e.preds[j])
@@ -377,7 +384,7 @@ RECURSIVE RefsVar(_)
 StepsRefVar(steps) == \E i \in 1..Len(steps) :
    IF "fn" \in DOMAIN steps[i] THEN RefsVar(steps[i].fn) ELSE \E j \in 1..Len(steps[i].preds) : RefsVar(steps[i].preds[j])
 RefsVar(e) ==
-  CASE e.op \in {"num", "lit"} -> FALSE
+  CASE e.op \in {"num", "lit", "numtext"} -> FALSE
     [] e.op = "var" -> TRUE
     [] e.op = "call" -> \E i \in 1..Len(e.args) : RefsVar(e.args[i])
     [] e.op = "path" -> StepsRefVar(e.steps)
@@ -394,7 +401,7 @@ RECURSIVE CallsFn(_, _)
 StepsCall(steps, nm) == \E i \in 1..Len(steps) :
    IF "fn" \in DOMAIN steps[i] THEN CallsFn(steps[i].fn, nm) ELSE \E j \in 1..Len(steps[i].preds) : CallsFn(steps[i].preds[j], nm)
 CallsFn(e, nm) ==
-  CASE e.op \in {"num", "lit", "var"} -> FALSE
+  CASE e.op \in {"num", "lit", "var", "numtext"} -> FALSE
     [] e.op = "call" -> (e.pre = "" /\ e.lo = nm) \/ \E i \in 1..Len(e.args) : CallsFn(e.args[i], nm)
     [] e.op = "path" -> StepsCall(e.steps, nm)
     [] e.op = "filter" -> CallsFn(e.prim, nm) \/ StepsCall(e.steps, nm) \/ \E j \in 1..Len(e.preds) : CallsFn(e.preds[j], nm)
